@@ -14,8 +14,10 @@ Tie S : (symbolic-execution translator, harness/gen_kernels.py) the real calcula
 Tie H : (histories) `c11.seq` runs Model/GeomHistory.lean (stored 'volume' / 'area' / 'metric' variables reused as the code does,
         `_validate_metric` read-only) on the same call sequence as ONE live object; every step compared (stream `sequence`).
 Oracle: metamorphic, on the public API only: relabel ids, shuffle storage, exact rational rotation + translation,
-        scaling, reflection; modes agree on affine cells and equal the closed form; bricks: counts, positivity,
-        sum = box.
+        scaling, reflection, `relist` (planar shell cells listed from another start node / in the opposite orientation);
+        modes agree on affine cells and equal the closed form (polygons of planar meshes included); bricks: counts,
+        positivity, sum = box; stream `polygon`: planar tilings by NON-CONVEX polygon cells with hanging nodes, every
+        listing (start node x orientation) of every cell, exact areas (cell counts) in every mode, unit plane normals.
 """
 import math
 from fractions import Fraction as F
@@ -73,6 +75,19 @@ RULE = ('(P) per kernel x mode x type N disjoint elements (half: independent ran
         'cells under a random dyadic affine map (frustums: parallel end faces; obliquely cut prisms / hexes: NON-parallel end '
         'faces - triangle extruded to three different heights, cone cut at three different ratios, quad extruded up to an '
         'oblique plane; connectivity started at a random corner) + bricks (type x n x lengths) + generate_random_mesh; '
+        'mesh kind `shell:polytile` (main loop: tie D + every transform): an nx x ny grid partitioned into random simply connected '
+        'regions (polyominoes: L, U, T, Z, plus, comb ... - in general NOT convex), each region one polygon element through every grid '
+        'vertex of its boundary (collinear / hanging nodes; in half of the meshes each collinear node dropped with probability 1/2), '
+        'listed from a RANDOM start node, single cells also quad / 2 tri, plus one arrow / star polygon (not rectilinear), mapped to '
+        '3-D by a random dyadic affine map; transform `relist` on every planar shell mesh (each cell re-listed from a random start '
+        'node, 40 % reversed: areas equal, normals negated for the reversed ones); modes-agree-on-affine now also for polygon cells '
+        'of planar meshes (closed form = length of the exact vector area); '
+        'stream `polygon`: such tilings (the classical L / U / T / plus / Z / comb / long-L shapes first, then random) as generated, '
+        'polygon-only with every polygon replaced by ALL its listings (every start node x both orientations; quick: 16 sampled per '
+        'polygon), mixed with tri / quad cells (8 listings per polygon; femio then uses its default mode), every third mesh at an '
+        'absolute scale 2^-13 / 2^-10 / 2^10; asserted per cell in every mode and through calculate_element_metrics: area = exact '
+        'area (number of grid cells x |A e_x x A e_y|; star: sum of its positive fan triangles), normal = unit plane normal (negated '
+        'for a reversed listing), the grid part adds up to the parallelogram; '
         'stream `absolute-scale`: the same generator meshes (shell kinds twice as often) scaled exactly by 2^-13 / 2^-10 / 2^10, then '
         'tie D + {rigid, translate (in the mesh\'s own unit), scale, reflect, rescale (power of two across orders of magnitude), '
         'storage} + modes-affine at that absolute scale, tolerances relative to the scaled mesh; every normal inside the clamp-free '
@@ -114,6 +129,11 @@ ASSUMPTIONS = [
     'model (shellModeInMesh), not a violation of the property',
     'the polygon branch of calculate_element_areas is transcribed as written (mode == "centroid" -> fan kernel, other modes -> '
     'centroid kernel)',
+    'polygon cells: a polygon element is any simple closed loop of nodes (non-convex loops, collinear / hanging nodes, any start node, '
+    'either orientation are all inside "every element type ... polygon"); the exact area is asserted for PLANAR polygons only (a '
+    'non-planar loop has no area; for those only the invariances and model = implementation are checked); `relist` is applied to '
+    'planar shell meshes only (for a non-planar quad the two-triangle `linear` area legitimately depends on the diagonal, i.e. on '
+    'the start node); non-convex QUAD elements are not generated (not valid finite elements)',
 ]
 TRUSTED = ['C11: sqrt of the exact radicands is taken on the Python side (math.sqrt of a Fraction)',
            'C11 tie S: harness/gen_kernels.py (symbolic-execution translator working tree -> lean/Femio/Gen/Kernels.lean): exact polynomial '
@@ -366,6 +386,246 @@ def gen_shell(rng, kind=None, max_cells=3, order=None, id_style=None, jit=None):
             'nodes': [(ids[k], pos[k]) for k in keys], 'blocks': blocks}
 
 
+# ------------------------------------------------------------------------------------------ planar NON-CONVEX polygons
+# A polygon element is a simple closed loop of nodes; nothing in the property (or in femio) restricts it to convex loops, loops
+# without collinear nodes, or loops listed from a "good" node.  Regions of grid cells (polyominoes: L, U, T, Z, plus, comb ...) have
+# an area that needs no formula at all - the number of cells - and their boundary through EVERY grid vertex is a polygon with
+# collinear (hanging) nodes, as the cells of a conforming polygonal mesh next to finer neighbours have.
+
+def boundary_loop(cells):
+    """counter-clockwise boundary of a set of unit grid cells through every grid vertex on it, or None when the boundary is not
+    ONE simple loop (a hole, or two cells touching at a corner only)"""
+    nxt = {}
+    for (x, y) in cells:
+        for a, b, nb in (((x, y), (x + 1, y), (x, y - 1)), ((x + 1, y), (x + 1, y + 1), (x + 1, y)),
+                         ((x + 1, y + 1), (x, y + 1), (x, y + 1)), ((x, y + 1), (x, y), (x - 1, y))):
+            if nb not in cells:
+                if a in nxt:
+                    return None
+                nxt[a] = b
+    start = min(nxt)
+    loop, v = [start], nxt[start]
+    while v != start:
+        loop.append(v)
+        v = nxt[v]
+    return loop if len(loop) == len(nxt) else None
+
+
+def grow_region(rng, free, size):
+    """a random region of <= size edge-connected cells of `free` whose boundary is one simple loop"""
+    cells = {rng.choice(sorted(free))}
+    for _ in range(8 * size):
+        if len(cells) >= size:
+            break
+        x, y = rng.choice(sorted(cells))
+        dx, dy = rng.choice([(1, 0), (-1, 0), (0, 1), (0, -1)])
+        c = (x + dx, y + dy)
+        if c in free and c not in cells and boundary_loop(cells | {c}) is not None:
+            cells.add(c)
+    return cells
+
+
+NAMED_REGIONS = {      # (a part of) the classical shapes; the tiling generator completes them to a rectangle
+    'L': [(0, 0), (1, 0), (0, 1)], 'U': [(0, 0), (1, 0), (2, 0), (0, 1), (2, 1)], 'T': [(0, 1), (1, 1), (2, 1), (1, 0)],
+    'plus': [(1, 0), (0, 1), (1, 1), (2, 1), (1, 2)], 'Z': [(0, 1), (1, 1), (1, 0), (2, 0)],
+    'comb': [(0, 0), (1, 0), (2, 0), (3, 0), (4, 0), (0, 1), (2, 1), (4, 1)], 'long-L': [(0, 0), (1, 0), (2, 0), (3, 0), (0, 1), (0, 2)],
+}
+
+
+def is_collinear(a, b, c):
+    return (b[0] - a[0]) * (c[1] - b[1]) == (b[1] - a[1]) * (c[0] - b[0])
+
+
+def star_loop(rng):
+    """a non-rectilinear simple polygon (arrow / dart / star): integer points in strictly increasing polar angle around the
+    origin with alternating long / short radii; star-shaped from the origin, so its area is the sum of the (all positive)
+    triangles (0, v_i, v_i+1); returns (loop, exact area)"""
+    dirs = [(3, 0), (3, 1), (2, 2), (1, 3), (0, 3), (-1, 3), (-2, 2), (-3, 1), (-3, 0), (-3, -1), (-2, -2), (-1, -3), (0, -3), (1, -3),
+            (2, -2), (3, -1)]
+    while True:
+        n = rng.randint(4, 9)
+        pick = sorted(rng.sample(range(len(dirs)), n))
+        loop = []
+        for j, k in enumerate(pick):
+            f = rng.choice([F(1, 3), F(2, 3), F(1)]) if j % 2 else rng.choice([F(1), F(4, 3), F(2)])
+            loop.append((dirs[k][0] * f, dirs[k][1] * f))
+        tri = [loop[i - 1][0] * loop[i][1] - loop[i - 1][1] * loop[i][0] for i in range(n)]
+        if all(t > 0 for t in tri):       # consecutive directions less than 180 degrees apart: the origin sees every edge
+            return loop, sum(tri) / 2
+
+
+def gen_polytile(rng, nx=None, ny=None, named=None, id_style=None, order=None):
+    """conforming PLANAR shell mesh made of polygon cells that are in general NOT convex: an nx x ny grid of unit cells is
+    partitioned into random simply connected regions (`named`: the first region is that classical shape); a region becomes one
+    polygon element through every grid vertex of its boundary (collinear / hanging nodes; each collinear node is dropped with
+    probability 1/2 in half of the meshes), single cells also become a quad or two tris.  Every polygon is listed from a RANDOM
+    start node, counter-clockwise.  One extra arrow / star polygon (not rectilinear) lies next to the grid.  The whole plane is
+    mapped to 3-D by a random dyadic affine map.  m['exact'] = {element: exact area^2}; m['plane_normal'] = the un-normalised
+    normal every element must have; the grid part tiles a parallelogram of area nx * ny * |A e_x x A e_y|."""
+    if named:
+        w = max(x for x, _ in NAMED_REGIONS[named]) + 1
+        h = max(y for _, y in NAMED_REGIONS[named]) + 1
+        nx, ny = max(nx or 0, w + rng.randint(0, 1)), max(ny or 0, h + rng.randint(0, 1))
+    else:
+        nx, ny = nx or rng.randint(2, 4), ny or rng.randint(2, 3)
+    free = {(x, y) for x in range(nx) for y in range(ny)}
+    regions = []
+    if named:
+        regions.append(set(NAMED_REGIONS[named]))
+        free -= regions[0]
+    while free:
+        reg = grow_region(rng, free, rng.choice([1, 2, 3, 3, 4, 5, 6]))
+        regions.append(reg)
+        free -= reg
+    keep_all = rng.random() < .5
+    elems, cells_of = [], []
+    for reg in regions:
+        loop = boundary_loop(reg)
+        assert loop is not None
+        if len(reg) == 1 and rng.random() < .5:
+            if rng.random() < .5:
+                elems.append(('quad', loop))
+                cells_of.append(F(1))
+            else:
+                elems += [('tri', [loop[0], loop[1], loop[2]]), ('tri', [loop[0], loop[2], loop[3]])]
+                cells_of += [F(1, 2), F(1, 2)]
+            continue
+        if not keep_all:
+            n = len(loop)
+            loop = [v for i, v in enumerate(loop) if not (is_collinear(loop[i - 1], v, loop[(i + 1) % n]) and rng.random() < .5)]
+        r = rng.randrange(len(loop))
+        elems.append(('polygon', loop[r:] + loop[:r]))
+        cells_of.append(F(len(reg)))
+    star, star_area = star_loop(rng)
+    off = (F(nx + 4), F(rng.randint(0, 2)))
+    star = [(x + off[0], y + off[1]) for x, y in star]
+    r = rng.randrange(len(star))
+    elems.append(('polygon', star[r:] + star[:r]))
+    cells_of.append(star_area)
+    A = rand_affine(rng)
+    t = [F(rng.randint(-8, 8), 4) for _ in range(3)]
+    cx, cy = F(nx + 6, 2), F(ny, 2)                                # centre the plane coordinates
+    verts = sorted({v for _, c in elems for v in c})
+    pos = {v: tuple(t[r_] + A[r_][0] * (v[0] - cx) + A[r_][1] * (v[1] - cy) for r_ in range(3)) for v in verts}
+    N = _cross([A[r_][0] for r_ in range(3)], [A[r_][1] for r_ in range(3)])
+    assert any(x != 0 for x in N)
+    id_list, id_style = G.random_ids(rng, len(verts), id_style)
+    rng.shuffle(id_list)
+    ids = dict(zip(verts, id_list))
+    keys, order = G.order_ids(rng, verts, ids, order)
+    eids, _ = G.random_ids(rng, len(elems), rng.choice(['dense', 'sparse', 'large']))
+    rng.shuffle(eids)
+    blocks, exact = {}, {}
+    nn = sum(x * x for x in N)
+    for (ty, c), e, a in zip(elems, eids, cells_of):
+        blocks.setdefault(ty, []).append((e, [ids[v] for v in c]))
+        exact[e] = a * a * nn
+        # self-check of the generator: the cell count (or the star's triangle sum) is the polygon's area (2-D shoelace)
+        assert sum(c[i - 1][0] * c[i][1] - c[i - 1][1] * c[i][0] for i in range(len(c))) == 2 * a
+    for b in blocks.values():
+        rng.shuffle(b)
+    blocks = {t_: blocks[t_] for t_ in G.ELEMENT_TYPES if t_ in blocks}
+    return {'kind': 'shell:polytile', 'order': order, 'id_style': id_style, 'affine': True, 'jittered': False,
+            'nodes': [(ids[k], pos[k]) for k in keys], 'blocks': blocks, 'exact': exact, 'plane_normal': N,
+            'reversed': [], 'tiles': str(nx * ny), 'star': eids[len(elems) - 1], 'named': named,
+            'hanging': 'all grid vertices' if keep_all else 'some dropped'}
+
+
+def all_listings(m, rng=None, max_per_polygon=None):
+    """the same planar mesh in which every polygon element is replaced by ALL its listings: from every start node, in both
+    orientations (a reversed listing has the opposite normal and the same area)"""
+    out = dict(m)
+    eid = max(e for b in m['blocks'].values() for e, _ in b) + 1
+    rows, exact, rev = [], {}, []
+    for e, c in m['blocks'].get('polygon', []):
+        ls = [(k, r) for k in range(len(c)) for r in (False, True)]
+        if max_per_polygon and len(ls) > max_per_polygon:
+            ls = rng.sample(ls, max_per_polygon)
+        for k, r in ls:
+            row = c[k:] + c[:k]
+            if r:
+                row = [row[0]] + row[:0:-1]
+                rev.append(eid)
+            rows.append((eid, row))
+            exact[eid] = m['exact'][e]
+            eid += 1
+    out['blocks'] = {t: (rows if t == 'polygon' else b) for t, b in m['blocks'].items()}
+    out['exact'] = {**{e: a for e, a in m['exact'].items() if e not in dict(m['blocks'].get('polygon', []))}, **exact}
+    out['reversed'] = rev
+    out['kind'] = 'shell:polytile:all-listings'
+    return out
+
+
+def polytile_json(m):
+    return G.to_json(m) | {'exact': {str(e): str(a) for e, a in m['exact'].items()}, 'plane_normal': [str(x) for x in m['plane_normal']],
+                           'reversed': list(m['reversed']), 'tiles': m['tiles'], 'star': m['star']}
+
+
+def polytile_from_json(j):
+    m = G.from_json(j)
+    m['blocks'] = {t: m['blocks'][t] for t in G.ELEMENT_TYPES if t in m['blocks']}
+    m.update(exact={int(e): F(a) for e, a in j['exact'].items()}, plane_normal=[F(x) for x in j['plane_normal']],
+             reversed=list(j['reversed']), tiles=j['tiles'], star=j['star'], affine=True, jittered=False)
+    return m
+
+
+def check_polygon_exact(m):
+    """planar polygon cells (non-convex, hanging nodes, any start node, both orientations; tri / quad cells next to them): in
+    EVERY mode the area is the exact area of the cell, the normal is the unit normal of the plane (negated for a reversed
+    listing), calculate_element_metrics returns the same areas, and the cells of the grid part add up to the parallelogram"""
+    out = []
+    sc = scale_of(m)
+    tys = mesh_types(m)
+    type_of = {e: t for t, b in m['blocks'].items() for e, c in b}
+    conn = {e: c for b in m['blocks'].values() for e, c in b}
+    N = [float(x) for x in m['plane_normal']]
+    nn = math.sqrt(sum(x * x for x in N))
+    unit = [x / nn for x in N]
+    rev = set(m['reversed'])
+    want = {e: sqrtF(a) for e, a in m['exact'].items()}
+    for api in ('area', 'metric', 'normal'):
+        for mode in (MODES if api != 'metric' else [None]):
+            try:
+                v = evaluate(m, api, mode)
+            except Exception as e:
+                out.append((f'polygon-exact:{api}:raises', f'{api} (mode={mode}) of a planar mesh with non-convex polygon cells raises '
+                            f'{type(e).__name__}', {'error': repr(e)[:300]}))
+                continue
+            bad = []
+            for e, a in v.items():
+                t = type_of[e]
+                emode = (mode or 'centroid') if len(tys) == 1 else 'centroid'
+                if api == 'normal':
+                    raw = 2 * want[e] / max(1, len(conn[e]) - 2)
+                    if raw < RAW_NORMAL_MIN:
+                        continue
+                    tol = 4 * normal_tol(t, emode, sc, raw)
+                    w = [-x for x in unit] if e in rev else unit
+                    if not all(abs(x - y) <= tol for x, y in zip(w, a)):
+                        bad.append((e, w, a))
+                elif not abs(a - want[e]) <= 4 * tol_for(t, emode) * sc ** 2:
+                    bad.append((e, want[e], a))
+            if bad:
+                e = bad[0][0]
+                same = sorted({repr(round(v[e2], 9)) if api != 'normal' else repr([round(x, 6) for x in v[e2]])
+                               for e2 in v if sorted(conn[e2]) == sorted(conn[e])})
+                out.append((f'polygon-exact:{api}:{"mixed" if len(tys) > 1 else tys[0]}',
+                            f'{api} (mode={mode}) of {len(bad)} planar {type_of[e]} cell(s) differs from the exact value '
+                            f'(cell {e}: {len(conn[e])} nodes listed {conn[e]}, {"reversed" if e in rev else "counter-clockwise"}; '
+                            f'distinct values over the listings of this cell in the mesh: {same[:6]}; mesh types {"+".join(tys)})',
+                            {'element_expected_got': bad[:5], 'mode': mode, 'scale': sc}))
+                break
+    if m['kind'].endswith('polytile'):          # the grid part tiles a parallelogram (the last polygon is the star next to it)
+        v = evaluate(m, 'area', 'centroid')
+        grid = [e for e in v if e != m['star']]
+        total = sum(v[e] for e in grid)
+        box = float(F(m['tiles'])) * nn
+        if not abs(total - box) <= 4 * TOL64 * sc ** 2 * len(grid):
+            out.append(('polygon-exact:tiling-sum', f'the areas of the cells tiling a parallelogram sum to {total!r}, the parallelogram '
+                        f'has area {box!r}', {'sum': total, 'box': box}))
+    return out
+
+
 def planar_cells(rng, ty, n_elem, style='frustum'):
     """straight, planar-faced but NOT affine cells, all coordinates dyadic; returns the mesh and the exact signed volumes
     (divergence theorem over the planar faces).
@@ -596,6 +856,14 @@ def make_transform(rng, m, kind, unit=1):
         s = rng.choice([F(1, 2), F(2), F(3), F(3, 2), F(1, 4), F(5, 4)])
         return {'kind': kind, 'A': [[str(s * int(r == c)) for c in range(3)] for r in range(3)], 't': ['0', '0', '0'],
                 's': str(s)}
+    if kind == 'relist':
+        # the same elements listed from another start node and / or in the opposite orientation (shell cells only): the shape
+        # is the same, the orientation (normal) is opposite for a reversed listing
+        how = {}
+        for t, b in m['blocks'].items():
+            for e, c in b:
+                how[e] = [rng.randrange(len(c)), int(rng.random() < .4)]
+        return {'kind': kind, 'how': [[e, k, r] for e, (k, r) in how.items()]}
     if kind == 'reflect':
         R = rand_rotation(rng)
         ax = rng.randrange(3)
@@ -615,6 +883,18 @@ def apply_transform(m, tr):
         if 'faces' in m:
             out['faces'] = {em[e]: [[nm[n] for n in f] for f in fs] for e, fs in m['faces'].items()}
         return out, em
+    if k == 'relist':
+        how = {e: (s_, r) for e, s_, r in tr['how']}
+        out = dict(m)
+        out['blocks'] = {}
+        for t, b in m['blocks'].items():
+            rows = []
+            for e, c in b:
+                s_, r = how[e]
+                row = list(c[s_:]) + list(c[:s_])
+                rows.append((e, [row[0]] + row[:0:-1] if r else row))
+            out['blocks'][t] = rows
+        return out, None
     if k == 'storage':
         pos = dict(m['nodes'])
         out = dict(m)
@@ -632,7 +912,7 @@ def apply_transform(m, tr):
 def expected_relation(tr, api, dim):
     """(factor on the metric, matrix applied to normals) for a linear transform"""
     k = tr['kind']
-    if k in ('relabel', 'storage'):
+    if k in ('relabel', 'storage', 'relist'):
         return 1.0, None
     A = [[F(x) for x in r] for r in tr['A']]
     det = G.det3(*A)
@@ -660,6 +940,7 @@ def check_metamorphic(m, tr, api, mode):
     fac, N = expected_relation(tr, api, dim)
     sc = scale_of(m, m2)
     exact = tr['kind'] in ('relabel', 'storage')
+    flipped = {e for e, _s, r in tr['how'] if r} if tr['kind'] == 'relist' else set()
     tys = mesh_types(m)
     bad = []
     type_of = {e: t for t, b in m['blocks'].items() for e, _ in b}
@@ -699,6 +980,8 @@ def check_metamorphic(m, tr, api, mode):
                 continue
             tol = 1e-12 if exact else (2e-5 if (t, emode) in F32_NORMAL else 1e-7)
             want = a if N is None else [sum(N[r][c] * a[c] for c in range(3)) for r in range(3)]
+            if e in flipped:
+                want = [-x for x in want]
             if not all(abs(x - y) <= tol for x, y in zip(want, b)) or any(x != x for x in b):
                 bad.append((e, want, b))
         else:
@@ -742,16 +1025,23 @@ def check_modes_affine(m):
     pos = dict(m['nodes'])
     sc = scale_of(m)
     if is_shell(m):
-        if 'polygon' in m['blocks']:
-            return out
         vals = {mode: evaluate(m, 'area', mode) for mode in MODES}
+        mixed = len(m['blocks']) > 1
         for t, b in m['blocks'].items():
             for e, c in b:
                 p = [pos[n] for n in c]
-                cr = _cross(G.sub(p[1], p[0]), G.sub(p[-1], p[0]))
-                want = math.sqrt(float(sum(x * x for x in cr))) * (0.5 if t == 'tri' else 1.0)
+                if t == 'polygon':
+                    # a PLANAR simple polygon (the mesh is an affine image of a planar one): its area is the length of its vector
+                    # area 1/2 sum p[i-1] x p[i] (the shoelace formula in the polygon's plane), whatever node it is listed from
+                    V = (F(0), F(0), F(0))
+                    for i in range(len(p)):
+                        V = tuple(a + b_ for a, b_ in zip(V, _cross(p[i - 1], p[i])))
+                    want = sqrtF(sum(x * x for x in V)) / 2
+                else:
+                    cr = _cross(G.sub(p[1], p[0]), G.sub(p[-1], p[0]))
+                    want = math.sqrt(float(sum(x * x for x in cr))) * (0.5 if t == 'tri' else 1.0)
                 for mode in MODES:
-                    if not abs(vals[mode][e] - want) <= 4 * TOL64 * sc ** 2:
+                    if not abs(vals[mode][e] - want) <= 4 * tol_for(t, 'centroid' if mixed else mode) * sc ** 2:
                         out.append((f'modes-affine:area:{t}', f'area of an affine {t} in mode {mode} differs from the closed form',
                                     {'element': e, 'mode': mode, 'got': vals[mode][e], 'closed_form': want}))
         return out
@@ -1208,13 +1498,16 @@ def run(ctx):
     kt_broken = bool(ctx.extra.get('kernel_tie', {}).get('failed'))     # a KT_ obligation failed: search harder, like oracle-only
     n_mesh = ctx.n(126, 700) if (ctx.driver is not None and not kt_broken) else ctx.n(250, 1400)
     kinds = ['tet', 'hex', 'mixed', 'prism', 'pyr', 'tet2', 'shell:tri', 'shell:quad', 'shell:mixed', 'shell:polygon',
-             'polyhedron', 'mixed', 'shell:mixed', 'batch:hexprism']
+             'polyhedron', 'mixed', 'shell:mixed', 'batch:hexprism', 'shell:polytile']
     trs = ['relabel', 'storage', 'rigid', 'translate', 'scale', 'reflect']
     directed = directed_mixed()
     for k in range(-len(directed), n_mesh):
         kind = kinds[k % len(kinds)] if k >= 0 else 'directed'
         if k < 0:
             m, apis = directed[k]
+        elif kind == 'shell:polytile':
+            m = gen_polytile(rng)
+            apis = ['area', 'normal']
         elif kind.startswith('shell:'):
             m = gen_shell(rng, kind[6:], jit=True if kind == 'shell:mixed' and k % 2 else None)
             apis = ['area', 'normal']
@@ -1227,6 +1520,8 @@ def run(ctx):
         else:
             m = solid_mesh(ctx, kind)
             apis = ['volume']
+        # a PLANAR shell mesh: every cell may be listed from any of its nodes, in either orientation
+        planar_shell = kind.startswith('shell:') and m.get('affine') and not m.get('jittered')
         ctx.count('mesh:' + kind)
         ctx.count('order:' + str(m.get('order')))
         ctx.count('ids:' + str(m.get('id_style')))
@@ -1238,7 +1533,7 @@ def run(ctx):
                 if ctx.driver is not None and 'faces' not in m:
                     mesh_tie(ctx, m, api, mode, mismatch)
                     ctx.count(f'meshtie:{api}')
-                for trk in trs:
+                for trk in trs + (['relist'] if planar_shell else []):
                     tr = make_transform(rng, m, trk)
                     res = check_metamorphic(m, tr, api, mode)
                     case = {'check': 'metamorphic', 'mesh': G.to_json(m) | ({'faces': m['faces']} if 'faces' in m else {}),
@@ -1340,8 +1635,57 @@ def run(ctx):
                 ctx.fail(sig, what, {'check': 'metamorphic', 'mesh': G.to_json(m), 'transform': tr, 'api': api, 'mode': 'linear'}, obs)
     # ---- the same oracle at other ABSOLUTE scales (drawn last: the cases above are unchanged for a given seed)
     abs_scale_stream(ctx)
+    # ---- planar non-convex polygon cells, every listing, exact areas
+    polygon_stream(ctx)
     # ---- call histories on one live object (drawn last as well)
     sequence_stream(ctx)
+
+
+def scaled_polytile(m, s):
+    out = scaled_mesh(m, s)
+    out['exact'] = {e: a * F(s) ** 4 for e, a in m['exact'].items()}
+    out['plane_normal'] = [x * F(s) ** 2 for x in m['plane_normal']]
+    return out
+
+
+def polygon_stream(ctx):
+    """stream `polygon` (inside the quantifier: element type polygon, every mode, "equal the closed-form value", "depend only on its
+    shape and orientation"): planar tilings by NON-CONVEX polygon cells with hanging nodes (gen_polytile: the classical L / U / T /
+    plus / Z / comb shapes first, then random regions; one arrow / star polygon each), as generated (every polygon listed from a
+    random node; polygon-only or mixed with tri / quad cells), with every polygon replaced by ALL its listings (every start node x
+    both orientations; polygon-only mesh = the mode is honoured; mixed mesh = femio uses its default mode), and at the absolute
+    scales of the stream `absolute-scale`.  Asserted: area = exact area of the cell (cell count x the area factor of the affine
+    map, a rational under a square root) in every mode and through calculate_element_metrics, normal = unit plane normal (negated
+    for a reversed listing), the tiling adds up to the parallelogram."""
+    rng = ctx.rng
+    names = list(NAMED_REGIONS)
+    for k in range(ctx.n(12, 80)):
+        named = names[k] if k < len(names) else None
+        base = gen_polytile(rng, named=named)
+        variants = [('as-generated', base)]
+        polys_only = dict(base, blocks={'polygon': base['blocks']['polygon']},
+                          exact={e: base['exact'][e] for e, _ in base['blocks']['polygon']})
+        used = {n for _, c in polys_only['blocks']['polygon'] for n in c}
+        polys_only['nodes'] = [(i, p_) for i, p_ in base['nodes'] if i in used or rng.random() < .5]
+        variants.append(('all-listings:polygon-only', all_listings(polys_only, rng, None if not ctx.quick else 16)))
+        if len(base['blocks']) > 1:
+            variants.append(('all-listings:mixed', all_listings(base, rng, 8)))
+        if k % 3 == 2:
+            s = ABS_SCALES[(k // 3) % len(ABS_SCALES)]
+            variants = [(n_ + f':scale 2^{s.numerator.bit_length() - s.denominator.bit_length()}', scaled_polytile(m_, s))
+                        for n_, m_ in variants]
+        for name, m in variants:
+            ctx.case(('polygon', k, name), sample={'check': 'polygon-exact', 'variant': name, 'mesh': G.describe(m), 'named': named,
+                                                   'hanging_nodes': base['hanging']} if ctx.dist.get('polygon:meshes', 0) < 2 else None)
+            ctx.count('polygon:meshes')
+            ctx.count('polygon:variant:' + name.split(':scale')[0])
+            ctx.count('polygon:cells', sum(len(b) for b in m['blocks'].values()))
+            ctx.count('polygon:' + ('mixed with tri / quad' if len(m['blocks']) > 1 else 'polygon-only'))
+            pos2 = None
+            for e, c in m['blocks']['polygon']:
+                ctx.count(f'polygon:nodes-per-polygon:{len(c) if len(c) < 12 else "12+"}')
+            for sig, what, obs in check_polygon_exact(m):
+                ctx.fail(sig, what, {'check': 'polygon-exact', 'variant': name, 'mesh': polytile_json(m)}, obs)
 
 
 def abs_scale_stream(ctx):
@@ -1910,6 +2254,8 @@ def replay(ctx, obj):
         res = check_modes_affine(G.from_json(case['mesh']))
     elif case.get('check') == 'modes-planar':
         res = check_modes_planar(G.from_json(case['mesh']), {int(e): F(v) for e, v in case['exact'].items()})
+    elif case.get('check') == 'polygon-exact':
+        res = check_polygon_exact(polytile_from_json(case['mesh']))
     else:
         m = G.from_json(case['mesh'])
         m['blocks'] = {t: m['blocks'][t] for t in G.ELEMENT_TYPES if t in m['blocks']}
